@@ -10,7 +10,10 @@ Harness protocol (duck-typed):
     h.ops(world)     -> list of JSON-able operations enabled in this state (may be a constant list)
     h.apply(world, op)          perform op on implementation and reference, compare observables; raise Violation
     h.check(world)              invariants + fault menu in the reached state; raise Violation
-    h.canon(world)   -> hashable/marshal-able canonical state
+    h.canon(world)   -> hashable/marshal-able canonical state of the implementation
+    h.refstate(world)-> canonical state of the reference model.  States are merged only if BOTH agree: a
+                        divergence that happens to land in an implementation state already seen (with another
+                        reference state) must still be checked and expanded
     h.outcome(world) -> hashable observable outcome (vacuity guard), optional
     h.known(world)   -> Violation(known=<finding id>) if the last op re-observed a listed finding, optional
 
@@ -35,8 +38,10 @@ def fresh(h):
 
 
 def digest(k):
+    # marshal format version 0: no object references and no interning flags, so equal values always serialise to
+    # equal bytes (later versions encode *sharing* of sub-objects, which differs between equal structures)
     try:
-        return hashlib.blake2b(marshal.dumps(k), digest_size=16).digest()
+        return hashlib.blake2b(marshal.dumps(k, 0), digest_size=16).digest()
     except ValueError:
         return hashlib.blake2b(repr(k).encode(), digest_size=16).digest()
 
@@ -108,7 +113,7 @@ def _expand(histories):
             transitions += 1
             try:
                 _guard(h.apply, w, op)
-                k = digest(h.canon(w))
+                k = digest((h.canon(w), h.refstate(w)))
                 new = (k not in seen and k not in local) if dedup else True
                 if new:
                     _guard(h.check, w)
@@ -146,7 +151,7 @@ def explore(ctx, h, leg, max_depth, dedup=True, max_states=None, case_extra=None
     except Violation as v:
         ctx.report(case([]), v)
         return {'states': 0, 'transitions': 0, 'fixpoint': False, 'depth': 0}
-    seen = {digest(h.canon(w0))}
+    seen = {digest((h.canon(w0), h.refstate(w0)))}
     frontier = [[]]
     states, transitions, depth_reached = 1, 0, 0
     capped = aborted = False
